@@ -106,3 +106,14 @@ Theorem C17_back_flags_after_every_history_with_stored_events : forall cf, c_be 
   co_flag_and (build cf parents false root) rn' f = sp_flag_and_back root c' f.
 Proof. exact back_flags_after_queue_history. Qed.
 Print Assumptions C17_back_flags_after_every_history_with_stored_events.
+
+Theorem C17_mp11_flags_after_every_history_with_stored_events : forall cf, c_be cf = Mp11 ->
+  forall parents, (forall e, nth e parents None = None) -> mp11_entry_throw_resets = true ->
+  forall root, core root -> m_hist root = HNone ->
+  forall l f, qbracketed false l -> ends_started false l = true -> 2 * count_enq l + depth root + 3 <= default_fuel ->
+  let rn' := final_rn cf root (build cf parents false root) default_fuel (init_rnode root) l in
+  let c' := fst (sp_qfinal_mp11 (c_pol cf) root (abs (init_rnode root), []) l) in
+  co_flag_or (build cf parents false root) rn' f = sp_flag_or root c' f /\
+  co_flag_and (build cf parents false root) rn' f = sp_flag_and_mp11 root c' f.
+Proof. exact mp11_flags_after_queue_history. Qed.
+Print Assumptions C17_mp11_flags_after_every_history_with_stored_events.
